@@ -170,3 +170,316 @@ Proof.
     unfold OMap.has.
     destruct (OMap.get (t_pk t) k); auto.
 Qed.
+
+(* ---------------------------------------------------------------- histories *)
+
+Definition rel_tx (d : dbs) (a : Z * txn) (b : Z * (bool * kvs)) : Prop :=
+  fst a = fst b /\ t_w (snd a) = fst (snd b) /\ tx_ok (snd a) /\ view (snd a) = snd (snd b) /\
+  (t_w (snd a) = true -> snapshot_current d (snd a)).
+
+Definition opens (txs : list (Z * txn)) : list (Z * bool) := map (fun a => (fst a, t_w (snd a))) txs.
+Definition nwriters (txs : list (Z * txn)) : nat := writers (fun b : bool => b) (opens txs).
+
+Definition R (s : impl_state) (s' : spec_state) : Prop :=
+  db_ok (fst s) /\ db_view (fst s) = fst s' /\ Forall2 (rel_tx (fst s)) (snd s) (snd s') /\
+  (nwriters (snd s) <= 1)%nat.
+
+Lemma find_rel d txs stxs h : Forall2 (rel_tx d) txs stxs ->
+  match tx_find txs h, tx_find stxs h with
+  | Some t, Some st => rel_tx d (h, t) (h, st)
+  | None, None => True
+  | _, _ => False
+  end.
+Proof.
+  induction 1 as [|[h1 t1] [h2 st2] txs stxs H F IH]; simpl; auto.
+  destruct H as (E & Hw & Hok & Hv & Hs). simpl in *. subst h2.
+  destruct (h =? h1); auto. unfold rel_tx. simpl. tauto.
+Qed.
+
+Lemma remove_rel d txs stxs h : Forall2 (rel_tx d) txs stxs ->
+  Forall2 (rel_tx d) (tx_remove txs h) (tx_remove stxs h).
+Proof.
+  induction 1 as [|[h1 t1] [h2 st2] txs stxs H F IH]; simpl; auto.
+  assert (h1 = h2) by apply H. subst h2. destruct (h =? h1); auto.
+Qed.
+
+Lemma update_rel d txs stxs h t st : Forall2 (rel_tx d) txs stxs ->
+  (forall h', rel_tx d (h', t) (h', st)) ->
+  Forall2 (rel_tx d) (tx_update txs h t) (tx_update stxs h st).
+Proof.
+  intros F Hn. induction F as [|[h1 t1] [h2 st2] txs stxs H F IH]; simpl; auto.
+  assert (h1 = h2) by apply H. subst h2. destruct (h =? h1); auto.
+Qed.
+
+Lemma opens_remove txs h : opens (tx_remove txs h) = tx_remove (opens txs) h.
+Proof. induction txs as [|[h1 t1] txs IH]; simpl; auto. destruct (h =? h1); simpl; congruence. Qed.
+
+Lemma opens_update txs h t t' : tx_find txs h = Some t -> t_w t' = t_w t ->
+  opens (tx_update txs h t') = opens txs.
+Proof.
+  induction txs as [|[h1 t1] txs IH]; simpl; auto. destruct (h =? h1).
+  - intros [= ->] E. simpl. rewrite E. auto.
+  - intros. simpl. f_equal. auto.
+Qed.
+
+Lemma writers_remove (l : list (Z * bool)) h :
+  (writers (fun b : bool => b) (tx_remove l h) <= writers (fun b : bool => b) l)%nat.
+Proof. induction l as [|[h1 b] l IH]; simpl; auto. destruct (h =? h1); simpl; lia. Qed.
+
+Lemma remove_absent {A} (l : list (Z * A)) h : tx_find l h = None -> tx_remove l h = l.
+Proof.
+  induction l as [|[h1 a] l IH]; simpl; auto. destruct (h =? h1); [discriminate|]. intros. f_equal; auto.
+Qed.
+
+Lemma find_opens txs h : tx_find (opens txs) h = option_map t_w (tx_find txs h).
+Proof. induction txs as [|[h1 t1] txs IH]; simpl; auto. destruct (h =? h1); auto. Qed.
+
+Lemma nwriters_zero txs : nwriters txs = 0%nat -> Forall (fun a => t_w (snd a) = false) txs.
+Proof.
+  unfold nwriters. induction txs as [|[h2 t2] txs IH]; simpl; auto.
+  destruct (t_w t2) eqn:W2; simpl; intros; [lia|]. constructor; auto.
+Qed.
+
+(* after the only writer is gone, nobody is a writer *)
+Lemma no_writer_left txs h t : tx_find txs h = Some t -> t_w t = true ->
+  (nwriters txs <= 1)%nat -> Forall (fun a => t_w (snd a) = false) (tx_remove txs h).
+Proof.
+  intros F W Hc. apply nwriters_zero. unfold nwriters in *. rewrite opens_remove.
+  revert F Hc. induction txs as [|[h1 t1] txs IH]; simpl; [discriminate|].
+  destruct (h =? h1) eqn:E.
+  - intros [= ->]. rewrite W. intros Hc. pose proof (writers_remove (opens txs) h). simpl in Hc. lia.
+  - intros F Hc. simpl.
+    assert (1 <= writers (fun b : bool => b) (opens txs))%nat.
+    { clear -F W. induction txs as [|[h2 t2] txs IH]; simpl in *; [discriminate|].
+      destruct (h =? h2); [inversion F; subst; rewrite W; simpl; lia|]. specialize (IH F). lia. }
+    destruct (t_w t1); simpl in *; [lia|]. apply IH; auto.
+Qed.
+
+Lemma rel_readers d d' txs stxs : Forall2 (rel_tx d) txs stxs ->
+  Forall (fun a => t_w (snd a) = false) txs -> Forall2 (rel_tx d') txs stxs.
+Proof.
+  induction 1 as [|a b txs stxs H F IH]; intros Hr; constructor; inversion Hr; subst; auto.
+  destruct H as (E & Hw & Hok & Hv & Hs). unfold rel_tx. split; [auto|split; [auto|split; [auto|split; [auto|]]]].
+  intros Hx. congruence.
+Qed.
+
+Lemma mk_rel d h t w tm : t_w t = w -> tx_ok t -> view t = tm ->
+  (t_w t = true -> snapshot_current d t) -> rel_tx d (h, t) (h, (w, tm)).
+Proof. intros. unfold rel_tx. simpl. tauto. Qed.
+
+Ltac triv := simpl; unfold R; simpl; intuition auto.
+
+Lemma step_refines o s s' open' : R s s' -> open_step (opens (snd s)) o = Some open' ->
+  snd (impl_step s o) = snd (spec_step s' o) /\
+  R (fst (impl_step s o)) (fst (spec_step s' o)) /\
+  opens (snd (fst (impl_step s o))) = open'.
+Proof.
+  destruct s as [d txs], s' as [m stxs]. intros (D & V & F & Wc) Ho. simpl in D, V, F, Wc, Ho.
+  pose proof (find_rel d txs stxs) as FR.
+  destruct o as [h w|h k v|h k|h k|h|h fl|h|]; simpl in Ho; unfold impl_step, spec_step.
+  - (* begin *)
+    rewrite find_opens in Ho. destruct (tx_find txs h) eqn:Fh; [discriminate|]. simpl in Ho.
+    specialize (FR h F). rewrite Fh in FR. destruct (tx_find stxs h) eqn:Fh'; [contradiction|].
+    destruct (w && (0 <? Z.of_nat (writers (fun b : bool => b) (opens txs)))) eqn:Ew; [discriminate|].
+    inversion Ho; subst open'. clear Ho.
+    unfold tx_set. rewrite !remove_absent by auto. simpl.
+    split; [auto|split; [|auto]]. unfold R. simpl.
+    split; [auto|split; [auto|split]].
+    + constructor; auto. apply mk_rel; auto.
+      * apply begin_ok; auto.
+      * rewrite view_begin. auto.
+      * intros _. unfold snapshot_current. simpl. auto.
+    + unfold nwriters in *. simpl. destruct w; simpl in *; auto.
+      apply Z.ltb_ge in Ew. lia.
+  - (* put *)
+    inversion Ho; subst open'. clear Ho.
+    specialize (FR h F). destruct (tx_find txs h) as [t|] eqn:Fh; destruct (tx_find stxs h) as [[w tm]|] eqn:Fh';
+      try contradiction; [|triv].
+    destruct FR as (_ & Hw & Hok & Hv & Hs). simpl in *. subst w.
+    destruct (t_w t) eqn:W; simpl; [|triv].
+    split; [auto|split].
+    + unfold R. simpl. split; [auto|split; [auto|split]].
+      * apply update_rel; auto. intros h'. apply mk_rel; auto.
+        -- apply put_key_ok; auto.
+        -- rewrite view_put_key by auto. congruence.
+      * unfold nwriters. rewrite (opens_update txs h t) by auto. auto.
+    + apply (opens_update txs h t); auto.
+  - (* delete *)
+    inversion Ho; subst open'. clear Ho.
+    specialize (FR h F). destruct (tx_find txs h) as [t|] eqn:Fh; destruct (tx_find stxs h) as [[w tm]|] eqn:Fh';
+      try contradiction; [|triv].
+    destruct FR as (_ & Hw & Hok & Hv & Hs). simpl in *. subst w.
+    destruct (t_w t) eqn:W; simpl; [|triv].
+    split; [auto|split].
+    + unfold R. simpl. split; [auto|split; [auto|split]].
+      * apply update_rel; auto. intros h'. apply mk_rel; auto.
+        -- apply delete_key_ok; auto.
+        -- rewrite view_delete_key by auto. congruence.
+      * unfold nwriters. rewrite (opens_update txs h t) by auto. auto.
+    + apply (opens_update txs h t); auto.
+  - (* get *)
+    inversion Ho; subst open'. clear Ho.
+    specialize (FR h F). destruct (tx_find txs h) as [t|] eqn:Fh; destruct (tx_find stxs h) as [[w tm]|] eqn:Fh';
+      try contradiction; try (triv; fail).
+    destruct FR as (_ & Hw & Hok & Hv & Hs). simpl in *.
+    split; [rewrite read_through_layers by auto; congruence|triv].
+  - (* scan *)
+    inversion Ho; subst open'. clear Ho.
+    specialize (FR h F). destruct (tx_find txs h) as [t|] eqn:Fh; destruct (tx_find stxs h) as [[w tm]|] eqn:Fh';
+      try contradiction; try (triv; fail).
+    destruct FR as (_ & Hw & Hok & Hv & Hs). simpl in *.
+    split; [congruence|triv].
+  - (* commit *)
+    inversion Ho; subst open'. clear Ho.
+    specialize (FR h F). destruct (tx_find txs h) as [t|] eqn:Fh; destruct (tx_find stxs h) as [[w tm]|] eqn:Fh';
+      try contradiction;
+      [|simpl; unfold R; simpl; intuition auto; symmetry; apply remove_absent; rewrite find_opens, Fh; auto].
+    destruct FR as (_ & Hw & Hok & Hv & Hs). simpl in *. subst w.
+    pose proof (writers_remove (opens txs) h) as Wr.
+    destruct (t_w t) eqn:W; simpl.
+    + split; [auto|split; [|apply opens_remove]].
+      unfold R. simpl. split; [apply commit_ok; auto|split; [|split]].
+      * rewrite commit_refines by auto. auto.
+      * apply (rel_readers d). { apply remove_rel; auto. }
+        apply (no_writer_left txs h t); auto.
+      * unfold nwriters in *. rewrite opens_remove. lia.
+    + split; [auto|split; [|apply opens_remove]].
+      unfold R. simpl. split; [auto|split; [auto|split]].
+      * apply remove_rel; auto.
+      * unfold nwriters in *. rewrite opens_remove. lia.
+  - (* rollback *)
+    inversion Ho; subst open'. clear Ho. simpl.
+    pose proof (writers_remove (opens txs) h) as Wr.
+    split; [auto|split; [|apply opens_remove]].
+    unfold R. simpl. split; [auto|split; [auto|split]].
+    + apply remove_rel; auto.
+    + unfold nwriters in *. rewrite opens_remove. lia.
+  - (* flush: no transaction is open *)
+    destruct txs as [|a txs]; simpl in Ho; [|discriminate]. inversion Ho; subst open'. clear Ho.
+    inversion F; subst. simpl.
+    split; [auto|split; [|auto]].
+    unfold R. simpl. split; [apply flush_ok; auto|split; [auto|split; auto]].
+Qed.
+
+Theorem refines_spec ops : forall s s', R s s' -> admissible (opens (snd s)) ops = true ->
+  run impl_step s ops = run spec_step s' ops.
+Proof.
+  induction ops as [|o ops IH]; intros s s' HR A; simpl; auto.
+  simpl in A. destruct (open_step (opens (snd s)) o) as [open'|] eqn:Ho; [|discriminate].
+  destruct (step_refines o s s' open' HR Ho) as (Eo & HR' & Eop).
+  destruct (impl_step s o) as [s1 o1], (spec_step s' o) as [s1' o1']. simpl in *.
+  subst o1'. f_equal. apply IH; auto. rewrite Eop. auto.
+Qed.
+
+Lemma init_related m : sorted m -> R (impl_init m) (spec_init m).
+Proof.
+  intros S. unfold R, impl_init, spec_init, db_ok, nwriters; simpl. repeat split; auto.
+Qed.
+
+Theorem refines_spec_init m ops : sorted m -> admissible [] ops = true ->
+  run impl_step (impl_init m) ops = run spec_step (spec_init m) ops.
+Proof. intros S A. apply refines_spec; [apply init_related; auto|exact A]. Qed.
+
+(* the specification never looks at the flush decisions *)
+Lemma spec_clear_flush ops : forall s, run spec_step s (map clear_flush ops) = run spec_step s ops.
+Proof.
+  induction ops as [|o ops IH]; intros s; simpl; auto.
+  assert (E : spec_step s (clear_flush o) = spec_step s o) by (destruct o; reflexivity).
+  rewrite E. destruct (spec_step s o). f_equal. auto.
+Qed.
+
+Lemma admissible_clear_flush ops : forall open,
+  admissible open (map clear_flush ops) = admissible open ops.
+Proof.
+  induction ops as [|o ops IH]; intros open; simpl; auto.
+  assert (E : open_step open (clear_flush o) = open_step open o) by (destruct o; reflexivity).
+  rewrite E. destruct (open_step open o); auto.
+Qed.
+
+(* every read is the same under every flush schedule *)
+Theorem flush_schedule_invisible m ops1 ops2 : sorted m ->
+  map clear_flush ops1 = map clear_flush ops2 -> admissible [] ops1 = true ->
+  run impl_step (impl_init m) ops1 = run impl_step (impl_init m) ops2.
+Proof.
+  intros S E A.
+  assert (A2 : admissible [] ops2 = true).
+  { rewrite <- admissible_clear_flush, <- E, admissible_clear_flush. auto. }
+  rewrite !refines_spec_init by auto.
+  rewrite <- (spec_clear_flush ops1), <- (spec_clear_flush ops2), E. auto.
+Qed.
+
+(* rolled-back and refused transactions leave no trace: the database state is
+   literally unchanged *)
+Lemma rollback_no_trace d txs h : fst (fst (impl_step (d, txs) (FRollback h))) = d.
+Proof. reflexivity. Qed.
+
+Lemma readonly_commit_no_trace d txs h t fl : tx_find txs h = Some t -> t_w t = false ->
+  fst (fst (impl_step (d, txs) (FCommit h fl))) = d.
+Proof. intros F W. simpl. rewrite F, W. reflexivity. Qed.
+
+(* ---------------------------------------------------------------- bucket listings *)
+
+Lemma strip_prefix_spec p : forall k k', strip_prefix p k = Some k' <-> k = p ++ k'.
+Proof.
+  induction p as [|x p IH]; intros k k'; simpl.
+  - split; [intros [= ->]; auto|intros ->; auto].
+  - destruct k as [|y k]; [split; discriminate|].
+    destruct (Z.eqb_spec x y) as [->|N].
+    + rewrite IH. split; [intros ->; auto|intros [= ->]; auto].
+    + split; [discriminate|intros [= E _]; congruence].
+Qed.
+
+Lemma kcmp_prefix p a b : kcmp (p ++ a) (p ++ b) = kcmp a b.
+Proof. induction p; simpl; auto. rewrite Z.compare_refl. auto. Qed.
+
+Lemma under_in p (m : kvs) k v : In (k, v) (under p m) <-> In (p ++ k, v) m.
+Proof.
+  induction m as [|[k1 v1] m IH]; simpl; [tauto|].
+  destruct (strip_prefix p k1) as [k1'|] eqn:E.
+  - apply strip_prefix_spec in E. subst k1. simpl. rewrite IH. split.
+    + intros [[= -> ->]|H]; auto.
+    + intros [[= E ->]|H]; auto. apply app_inv_head in E. subst. auto.
+  - rewrite IH. split; auto. intros [[= -> ->]|H]; auto.
+    assert (strip_prefix p (p ++ k) = Some k) by (apply strip_prefix_spec; auto). congruence.
+Qed.
+
+Lemma under_sorted p (m : kvs) : sorted m -> sorted (under p m).
+Proof.
+  induction m as [|[k1 v1] m IH]; simpl; auto. intros [L S].
+  destruct (strip_prefix p k1) as [k1'|] eqn:E; auto.
+  apply strip_prefix_spec in E. subst k1. simpl. split; auto.
+  unfold lb in *. rewrite Forall_forall in *. intros [x vx] Hx. simpl.
+  apply under_in in Hx. specialize (L _ Hx). simpl in L. unfold klt in *.
+  rewrite kcmp_prefix in L. auto.
+Qed.
+
+(* what ForEach / a keys cursor lists for bucket [id]: sorted by key, and
+   exactly the pairs the transaction can Get in that bucket *)
+Lemma bucket_listing t id : tx_ok t ->
+  sorted (bucket_keys t id) /\
+  (forall k v, In (k, v) (bucket_keys t id) <-> fetch t (bucketized id k) = Some v).
+Proof.
+  intros T. pose proof (view_sorted t T) as S. split.
+  - apply under_sorted; auto.
+  - intros k v. unfold bucket_keys, bucketized. rewrite under_in. rewrite read_through_layers by auto.
+    split; [apply in_get; auto|apply get_in].
+Qed.
+
+Lemma bucket_subs_listing t id : tx_ok t ->
+  sorted (bucket_subs t id) /\
+  (forall n v, In (n, v) (bucket_subs t id) <-> fetch t (bidx_key id n) = Some v).
+Proof.
+  intros T. pose proof (view_sorted t T) as S. split.
+  - apply under_sorted; auto.
+  - intros n v. unfold bucket_subs, bidx_key. rewrite under_in. rewrite read_through_layers by auto.
+    rewrite <- app_assoc. split; [apply in_get; auto|apply get_in].
+Qed.
+
+Lemma cursor_sorted_complete t id : tx_ok t ->
+  sorted (bucket_keys t id) /\
+  (forall k v, In (k, v) (bucket_keys t id) <-> fetch t (bucketized id k) = Some v) /\
+  sorted (bucket_subs t id) /\
+  (forall n v, In (n, v) (bucket_subs t id) <-> fetch t (bidx_key id n) = Some v).
+Proof.
+  intros T. destruct (bucket_listing t id T), (bucket_subs_listing t id T). tauto.
+Qed.
